@@ -49,8 +49,11 @@ type scenario struct {
 
 // notype: a plain BOOTP reply (no option 53); badtype: option 53 with two octets; inform: a message type no exchange
 // waits for.  All three carry the right transaction id, hardware address and the server's identifier: "everything else is ignored".
-var discKinds = []string{"notype", "badtype", "inform", "offer", "offer", "offer-dup", "offer-wrongxid", "ack-instead", "nak-instead", "undecodable", "offer-wronghw", "offer-emptyhw", "offer-request-opcode", "silence"}
-var reqKinds = []string{"notype", "badtype", "inform", "ack", "ack", "nak", "ack-othersid", "ack-nosid", "offer-again", "ack-wrongxid", "nak-othersid", "undecodable", "silence"}
+// ack-rapid: an ACK with the Rapid Commit option (80) in answer to a DISCOVER that did not ask for it; ack-longsid /
+// nak-longsid: option 54 holds the right server's address followed by four more octets (sent as one 8-octet option or as
+// two instances, which is the same value): not that server's identifier.
+var discKinds = []string{"notype", "badtype", "inform", "offer", "offer", "offer-dup", "offer-wrongxid", "ack-instead", "nak-instead", "ack-rapid", "undecodable", "offer-wronghw", "offer-emptyhw", "offer-request-opcode", "silence"}
+var reqKinds = []string{"notype", "badtype", "inform", "ack", "ack", "nak", "ack-othersid", "ack-nosid", "ack-longsid", "nak-longsid", "offer-again", "ack-wrongxid", "nak-othersid", "undecodable", "silence"}
 
 func genScenario(rng *rand.Rand, maxServers, maxReact int) scenario {
 	sc := scenario{Bcast: rng.IntN(2) == 0, Cfg: rng.IntN(cli.NCfg), Unicast: rng.IntN(3) == 0}
@@ -162,6 +165,16 @@ func (w *world) datagram(sv *server, si int, kind string, req *ref4.P4) (*inject
 	case "ack-nosid":
 		mt = dhcpv4.MessageTypeAck
 		sid = nil
+	case "ack-longsid":
+		mt = dhcpv4.MessageTypeAck
+		sid = append(append([]byte{}, sv.ID[:]...), 172, 16, 97, byte(si+1))
+	case "nak-longsid":
+		mt = dhcpv4.MessageTypeNak
+		sid = append(append([]byte{}, sv.ID[:]...), sv.ID[:]...)
+	case "ack-rapid":
+		mt = dhcpv4.MessageTypeAck
+		p.YourIPAddr = net.IP(sv.AckAddr[:])
+		p.UpdateOption(dhcpv4.OptGeneric(dhcpv4.GenericOptionCode(80), nil))
 	case "ack-wrongxid":
 		mt = dhcpv4.MessageTypeAck
 		p.TransactionID[3] ^= 1
